@@ -270,6 +270,40 @@ impl C04 {
                         }
                     }
                 }
+                // the attacker's own config AND a pool of that config together (a consistent pair the attacker is the rightful
+                // authority of), while something else the instruction acts on - an oracle, a vault - stays the victim's
+                if matches!(*slot, "fee_authority" | "collect_protocol_fees_authority" | "reward_emissions_super_authority") {
+                    if let (Some(ci), Some(wi)) = (c.idx(cfg_slot), c.idx("whirlpool")) {
+                        let others_left = v.ix.accounts.iter().enumerate().any(|(j, m)| j != ci && j != wi && j != i && m.is_writable && v.pre.get(&m.pubkey).map(|a| a.owner == ix::wp() || a.owner == ix::tok() || a.owner == ix::tok22()).unwrap_or(false));
+                        if let (true, Some(ca), Some(pa)) = (others_left, v.pre.get(&v.ix.accounts[ci].pubkey), v.pre.get(&v.ix.accounts[wi].pubkey)) {
+                            if ca.data.len() == 108 && pa.data.len() >= 40 && pa.owner == ix::wp() {
+                                let rival_cfg = scratch_key(salt, 4011);
+                                let rival_pool = scratch_key(salt, 4012);
+                                let mut cd = (*ca.data).clone();
+                                for o in [8usize, 40, 72] {
+                                    cd[o..o + 32].copy_from_slice(attacker.as_ref());
+                                }
+                                let mut pd = (*pa.data).clone();
+                                pd[8..40].copy_from_slice(rival_cfg.as_ref());
+                                let mut f = base.clone();
+                                f.put(rival_cfg, Account::new(ca.lamports, cd, ca.owner));
+                                f.put(rival_pool, Account::new(pa.lamports, pd, pa.owner));
+                                let mut ixn = v.ix.clone();
+                                ixn.accounts[i].pubkey = attacker;
+                                ixn.accounts[i].is_signer = true;
+                                ixn.accounts[ci].pubkey = rival_cfg;
+                                ixn.accounts[wi].pubkey = rival_pool;
+                                let r = exec(&f, ixn);
+                                cov.eval(format!("{}|{}|rival_config_and_pool", name, slot));
+                                self.cell(format!("{} / {} / rival config + pool pair of the attacker's own", name, slot), !r.ok);
+                                if r.ok {
+                                    out.push(v04("rival_container_accepted", idx, format!("{}: succeeded for a stranger who signed as `{}` and presented a config and a pool of their own, acting on the victim's remaining accounts", name, slot)));
+                                    return;
+                                }
+                            }
+                        }
+                    }
+                }
                 for (kslot, rkey, racct) in rivals {
                     let Some(ki) = c.idx(kslot) else { continue };
                     let mut f = base.clone();
@@ -489,6 +523,52 @@ impl C04 {
                     self.cell(format!("{} / {} / delegate({})", name, slot, n), !r.ok);
                     if r.ok {
                         out.push(v04("bad_delegate_accepted", idx, format!("{}: succeeded for a delegate with delegated amount {}", name, n)));
+                        return;
+                    }
+                }
+            }
+            // (g) somebody ELSE is the approved delegate - the holder's own key (a self-approval), or a bystander - and a stranger
+            // signs: an approval names who may act, it does not open the position to everybody
+            if let Some(t) = v.pre.data(&ta_key).and_then(decode::token_account) {
+                for (who, key) in [("the holder's own key", t.owner), ("a bystander", scratch_key(salt, 4010))] {
+                    for n in [1u64, u64::MAX] {
+                        let mut f = base.clone();
+                        set_delegate(&mut f, &ta_key, &key, n);
+                        let mut ixn = v.ix.clone();
+                        ixn.accounts[i].pubkey = attacker;
+                        ixn.accounts[i].is_signer = true;
+                        let r = exec(&f, ixn);
+                        cov.eval(format!("{}|{}|delegate_is_someone_else", name, slot));
+                        self.cell(format!("{} / {} / stranger signs while {} is the approved delegate", name, slot, who), !r.ok);
+                        if r.ok {
+                            out.push(v04("wrong_signer_accepted", idx, format!("{}: succeeded for a stranger's signature while {} is the approved delegate ({}) of the position token account", name, who, n)));
+                            return;
+                        }
+                    }
+                }
+                // (h) the token is parked: the token account's recorded owner is a well-known address nobody can sign for (the
+                // System Program, the incinerator, a token program id), or the address of the program that owns the stranger's
+                // own wallet account - a stranger's signature must not do there either
+                let incinerator: Pubkey = "1nc1nerator11111111111111111111111111111111".parse().unwrap();
+                for (what, parked) in [("the System Program address", ix::sys()), ("the incinerator", incinerator), ("the token program id", ta_owner), ("the whirlpool program id", ix::wp())] {
+                    let mut f = base.clone();
+                    if let Some(a) = f.accts.get_mut(&ta_key) {
+                        let mut d = (*a.data).clone();
+                        d[32..64].copy_from_slice(parked.as_ref());
+                        a.data = std::rc::Rc::new(d);
+                    }
+                    // the stranger's wallet exists as an ordinary system account
+                    if f.get(&attacker).is_none() {
+                        f.put(attacker, Account::new(1_000_000_000, vec![], ix::sys()));
+                    }
+                    let mut ixn = v.ix.clone();
+                    ixn.accounts[i].pubkey = attacker;
+                    ixn.accounts[i].is_signer = true;
+                    let r = exec(&f, ixn);
+                    cov.eval(format!("{}|{}|token_parked", name, slot));
+                    self.cell(format!("{} / {} / stranger signs for a token parked under {}", name, slot, what), !r.ok);
+                    if r.ok {
+                        out.push(v04("wrong_signer_accepted", idx, format!("{}: succeeded for a stranger's signature although the position token is parked in an account whose recorded owner is {}", name, what)));
                         return;
                     }
                 }
